@@ -5,6 +5,7 @@
   OBLIGATIONS (checked against the axiom audit by the harness):
     gen_tables_as_modelled extracted_codecs_ascii default_pref_ok
     xml_roundtrip_events output_wellformed_events xml_roundtrip_partial tokenizer_inverts_serializer
+    ser_idempotent_partial builder_stream_not_idemOK
     explicit_default_not_undeclared
     encode_roundtrip_text encode_roundtrip_attr charref_roundtrip
     attr_tab_lf_cr_not_recovered text_cr_not_recovered decl_encoding_echoed
@@ -13,6 +14,7 @@ import Genshi.Lemmas.XmlRefs
 import Genshi.Lemmas.XmlFlatD
 import Genshi.Lemmas.XmlEmptyTag
 import Genshi.Lemmas.XmlEncode
+import Genshi.Lemmas.XmlIdem
 import Genshi.Model.XmlParser
 namespace Genshi.Props.C02
 open Genshi Genshi.Xml Genshi.Escape Genshi.Xml.Reader
@@ -116,6 +118,46 @@ theorem xml_roundtrip_partial (pref : List (Str × Str)) (hpref : prefOK pref = 
   simp only [Option.bind_some]
   rw [resolve_tokOf]
   exact xml_roundtrip_events pref hpref s hn h
+
+/-- **ser_idempotent, partial.**  For every stream in `docOK` that is shaped
+    like the parser's (`idemOK`: namespace events directly in front of their
+    start tag, `xmlns=""` reported with `None`, every namespace that is used
+    bound by the stream's own declarations so that the flattener invents none):
+    reading the flattened output back as `XMLParser` + `EmptyTagFilter` would
+    (`reparseX`: START_NS per `xmlns` attribute in attribute order, resolved
+    names, END_NS after the END) and flattening again yields the same flattened
+    events — hence the same text.  In particular redundant declarations dropped
+    in the first pass stay dropped and prefix choices are stable.
+
+    Full statement (`ser_idempotent`): `ser (parse (ser s)) = ser s` for every
+    parsed document and every builder stream.  Missing here: (a) builder
+    streams, where the first pass invents declarations that the second pass
+    meets as explicit ones (outside `idemOK`; the oracle checks them on the real
+    code); (b) the step from the text to the token list is
+    `tokenizer_inverts_serializer` (the two line breaks of the prolog are white
+    space outside the root element, which a parser does not report);
+    (c) `reparseX` is compared with the real parser by the correspondence
+    stream `reparse`, not derived from a model of expat. -/
+theorem ser_idempotent_partial (pref : List (Str × Str)) (hpref : prefOK pref = true) (s : Stream)
+    (h1 : docOK (emptyTag s) = true) (h2 : idemOK pref (emptyTag s) = true) :
+    ∃ xs2, reparseX PSt.init ((flatten pref (emptyTag s)).map normF) = some xs2 ∧
+      flatten pref xs2 = flatten pref (emptyTag s) ∧
+      serRun SerSt.init (flatten pref xs2) = serRun SerSt.init (flatten pref (emptyTag s)) := by
+  obtain ⟨xs2, r1, r2⟩ := idem_flatten pref hpref _ h1 h2
+  exact ⟨xs2, r1, r2, by rw [r2]⟩
+
+/-- a document with aliased, re-bound and undeclared namespaces is inside `idemOK` -/
+example : idemOK defaultPref (emptyTag
+    [.startNs [] ['u'], .startNs ['q'] ['u'], .start ⟨['u'], ['a']⟩ [(⟨['u'], ['x']⟩, ['1'])],
+     .startNs ['q'] ['v'], .startNs [] noneUri, .start ⟨[], ['b']⟩ [(⟨['v'], ['y']⟩, ['2'])],
+     .text ['t'] false, .end_ ⟨[], ['b']⟩, .endNs [], .endNs ['q'],
+     .start ⟨['u'], ['c']⟩ [], .end_ ⟨['u'], ['c']⟩,
+     .end_ ⟨['u'], ['a']⟩, .endNs ['q'], .endNs []]) = true := by decide
+
+/-- a builder stream is not: its namespaces are declared by the flattener -/
+theorem builder_stream_not_idemOK :
+    idemOK defaultPref (emptyTag [.start ⟨['u'], ['a']⟩ [], .text ['t'] false, .end_ ⟨['u'], ['a']⟩]) = false := by
+  decide
 
 /-- a namespaced document with declaration, DOCTYPE and mixed content is inside
     all hypotheses, and the text it is about exists -/
